@@ -80,7 +80,7 @@ def run_impl(case):
         elif act[0] == "iter":
             recs = drv.iterate(act[1], act[2], [tuple(x) for x in act[3]])
         elif act[0] == "in":
-            err = drv.deliver(act[1], act[2], act[3])
+            err = drv.deliver(act[1], act[2], act[3], caddr=act[4] if len(act) > 4 else 11 + act[1])
         post = drv.state()
         if act[0] == "iter" and post["queue"] < pre["queue"]:
             del mirror[:pre["queue"] - post["queue"]]
@@ -130,7 +130,7 @@ def c_act(a, n_peers):
         sends = list(a[3]) + [(0, None)] * (n_peers - len(a[3]))
         return "AIter %s %s %s" % (zz(a[1]), c_note(a[2]),
                                    clist("(%s, %s)" % (zz(o), zz(a[1] if t is None else t)) for o, t in sends))
-    return "AIn %s %s %s %s" % (cnat(a[1]), zz(a[2]), zz(a[3]), zz(11 + a[1]))
+    return "AIn %s %s %s %s" % (cnat(a[1]), zz(a[2]), zz(a[3]), zz(a[4] if len(a) > 4 else 11 + a[1]))
 
 
 def coq_input(case, conv, pop_first):
@@ -404,7 +404,10 @@ def random_history(rng, cfg=None):
                 nid += 1
             acts.append(["enq", note])
         elif r < 0.37:
-            acts.append(["in", rng.randrange(n), rng.choice((0, 1, 2)), rng.choice((0, 1, 1))])
+            a_in = ["in", rng.randrange(n), rng.choice((0, 1, 2)), rng.choice((0, 1, 1, 0))]
+            if rng.random() < 0.45:       # the peer's message comes from another address than the one recorded (multi-homed,
+                a_in.append(rng.choice((40, 41)) + a_in[1])      # re-addressed): the address is refreshed, nothing else
+            acts.append(a_in)
         else:
             t += rng.choice((0, 1, 1, 5, 5, 10, 31, 61))
             sends, tt = [], t
